@@ -3133,7 +3133,8 @@ where
         let reserve = if self.is_empty() {
             iter.size_hint().0
         } else {
-            (iter.size_hint().0 + 1) / 2
+            // Rounded up without `+ 1`: a size hint is advisory and may be `usize::MAX`.
+            iter.size_hint().0 / 2 + iter.size_hint().0 % 2
         };
         self.reserve(reserve);
         iter.for_each(move |(k, v)| {
